@@ -52,6 +52,16 @@ Theorem C05_locate_fast_correct : forall (xs : xtable) x, increasing xs -> locat
 Proof. exact (@locate_fast_correct (option Q * Q)). Qed.
 Print Assumptions C05_locate_fast_correct.
 
+(* the SLD computation the checker runs (one search per atom, reduced fractions) is the model's *)
+Theorem C05_checker_sld_is_model : forall E re na T s dn nd x,
+  match xray_sld_run locate E re na T s dn nd x, xray_sld_model E re na T s dn nd x with
+  | Val ((a1, a2), _), Val (b1, b2) => oeq a1 b1 /\ oeq a2 b2
+  | Raise, Raise => True
+  | _, _ => False
+  end.
+Proof. exact xray_sld_run_is_model. Qed.
+Print Assumptions C05_checker_sld_is_model.
+
 (* ---------------------------------------------------------------- the regenerated tables *)
 (* every .nff file loads; all but si.nff have strictly increasing energies *)
 Theorem C05_nff_sorted_partial : forall name lines t, In (name, lines) nff_files -> name <> "si.nff"%string ->
